@@ -58,7 +58,10 @@ const VERSIONS: [&str; 112] = [
 fn gen_pattern(rng: &mut Rng) -> String {
     let v1 = *rng.pick(&VERSIONS);
     let v2 = *rng.pick(&VERSIONS);
-    match rng.below(16) {
+    match rng.below(18) {
+        // globs whose only metacharacter is a '?' or a bracket set, not in first position
+        16 => rng.pick_str(&["foo-?.0", "fo?-1.0", "foo-1.?", "foo-1.0nb?"]).to_string(),
+        17 => rng.pick_str(&["foo-[0-9].0", "foo-1.[0-9]", "foo-[12].0", "fo[o]-1.0", "foo-[!2].0"]).to_string(),
         12 => "foo*".to_string(),
         13 => "*".to_string(),
         14 => "fo?*".to_string(),
